@@ -717,10 +717,26 @@ func (t *Topic) handleLeaveRequest(msg *ClientComMessage, sess *Session) {
 		return
 	}
 
+	if msg.init {
+		// Cannot address non-channel subscription as channel and vice versa: refuse before detaching the session.
+		s := sess
+		if sess.multi != nil {
+			s = sess.multi
+		}
+		if pssd, ok := t.sessions[s]; ok && pssd.isChanSub != asChan {
+			sess.queueOut(ErrNotFoundReply(msg, now))
+			return
+		}
+	}
+
 	// User wants to leave without unsubscribing.
 	if pssd, _ := t.remSession(sess, asUid); pssd != nil {
 		if !sess.isProxy() {
 			sess.delSub(t.name)
+		}
+		if !msg.init {
+			// The session is being terminated: it leaves the topic the way it was attached.
+			asChan = pssd.isChanSub
 		}
 		if pssd.isChanSub != asChan {
 			// Cannot address non-channel subscription as channel and vice versa.
